@@ -13,7 +13,7 @@ RESULTS = {
  "C29-B": ("C29", "C29", 1, "put_c3_m2 / put_c4_m1..3: order queue length differs from the number of entries"),
  "C16-A": ("C16", "C16", 1, "rotated_page: output rotation is not original + requested (mod 360)"),
  "C16-B": ("C16", "C16", 1, "indices_list_t3: List [2,2,1] not returned as requested"),
- "C01-A": ("C01", "C01", 0, "MISSED: LZWDecode is not decided (lzw_two_codes is a thorough-tier obligation without a verdict)"),
+ "C01-A": ("C01", "C01", 0, "MISSED: LZWDecode is not decided (harness/C01_lzw_attempt.rs.txt: CBMC crashed after 1540 s at 30 GB)"),
  "C01-B": ("C01", "C01", 1, "read_field_any: 9-byte field, attempt to subtract with overflow"),
  "C01-C": ("C01", "C01", 1, "name_token: '/' '#' 'f' '3' truncated tail, slice index past the end"),
  "C04-A": ("C04", "C04", 0, "MISSED: the /Prev-chain merge loop is not decided (DESIGN.md 10.6)"),
